@@ -287,6 +287,15 @@ func prepare[M, A any, V arith.Vec[V, E], E arith.Elt, F arith.Fp[E]](
 		if b2, _ := m2.MarshalBinary(); !bytes.Equal(b, b2) {
 			r.rtOK = false
 		}
+		if site == "prep-msg-missing" && j == victim && jr { // the prep message never arrives / arrives empty: with joint randomness that is an error
+			applied = true
+			if rng.Intn(2) == 0 {
+				m2 = nil
+			} else {
+				m2 = new(prio3.PrepMessage)
+				_ = m2.UnmarshalBinary([]byte{})
+			}
+		}
 		o, err := api.PrepNext(states[j], m2)
 		if err != nil {
 			return fail("prep-next")
@@ -308,7 +317,7 @@ func prepare[M, A any, V arith.Vec[V, E], E arith.Elt, F arith.Fp[E]](
 }
 
 var Sites = []string{"leader-meas", "leader-proof", "leader-blind", "helper-seed", "helper-blind", "public-share", "swap-helpers",
-	"other-report-leader", "other-report-helper", "nonce-one", "nonce-all", "verify-key-one", "prep-share-verifier", "prep-share-jrpart", "prep-msg-one"}
+	"other-report-leader", "other-report-helper", "nonce-one", "nonce-all", "verify-key-one", "prep-share-verifier", "prep-share-jrpart", "prep-msg-one", "prep-msg-missing"}
 
 // invalid encodings derived from valid ones (big integers; pm1 = p - 1)
 func (s *Session[M, A, V, E, F]) evil(valid [][]*big.Int, pm1 *big.Int, rng *rand.Rand) (out [][]*big.Int, notes []string) {
